@@ -263,11 +263,11 @@ fn derive_deserialize(
             let mut required_tags = std::collections::HashSet::<u16>::from(v);
             let mut actual_tags = std::collections::HashSet::<u16>::new();
 
-            let mut curr_len = bytes.len() + 1;
+            let mut __zvt_curr_len = bytes.len() + 1;
             #(let mut #opt_field_names = <#opt_field_tys>::default();)*
-            while ! bytes.is_empty() && curr_len != bytes.len() {
+            while ! bytes.is_empty() && __zvt_curr_len != bytes.len() {
                 // Make sure to terminate if we don't make progress.
-                curr_len = bytes.len();
+                __zvt_curr_len = bytes.len();
 
                 // Try to get the next tag.
                 let tag: zvt_builder::Tag = match zvt_builder::encoding::Default::decode(&bytes) {
